@@ -15,7 +15,15 @@ use std::time::Instant;
 pub const DEFAULT_SEED: u64 = 2026_1003;
 pub const PROPERTY: &str = "C20";
 /// Which build of the code under test this binary is (see Cargo.toml, profile `checked`).
-pub const BUILD_CONFIG: &str = if cfg!(debug_assertions) { "checked" } else { "release" };
+pub const BUILD_CONFIG_DEFAULT: &str = if cfg!(debug_assertions) { "checked" } else { "release" };
+
+/// Label of this build configuration (the driver names the extra per-feature builds).
+pub fn build_config() -> String {
+    match std::env::var("VERIF_BUILD_LABEL") {
+        Ok(s) if !s.trim().is_empty() => s.trim().to_string(),
+        _ => BUILD_CONFIG_DEFAULT.to_string(),
+    }
+}
 
 const FAULT_KINDS: [&str; 17] = [
     "W_ERR_TRANSIENT", "W_ERR_PERMANENT", "R_REORDER", "R_DROP", "R_UNKNOWN", "R_DUP", "R_ERR", "R_TRUNC",
@@ -738,7 +746,7 @@ pub fn cmd_batch(args: &[String]) -> i32 {
     let default_runs: u64 = if tier == "thorough" { 240_000_000 } else { 400_000 };
     let random_runs: u64 = arg_val(args, "--runs").and_then(|s| s.parse().ok()).unwrap_or(default_runs);
 
-    println!("VERIF_SEED={} tier={} threads={} build_configuration={}", seed, tier, threads, BUILD_CONFIG);
+    println!("VERIF_SEED={} tier={} threads={} build_configuration={}", seed, tier, threads, build_config());
     let b = Batch::new(seed);
     let total = b.sweep_len() + random_runs;
     println!("sweep_runs={} (event {} + bytes {}) random_runs={} types={}", b.sweep_len(), b.sweep.len(), b.jsweep.len(), random_runs, b.reg.len());
@@ -770,11 +778,11 @@ pub fn cmd_batch(args: &[String]) -> i32 {
             let (small, steps) = b.shrink_any(&rec.plan, id);
             let o = b.run_any(&small, RunOpts::default());
             let f = o.failure.clone().unwrap_or_else(|| rec.failure.clone());
-            let path = format!("{}/C20-{}-{}-{}-{}.json", replay_dir, BUILD_CONFIG, seed, rec.run, id);
+            let path = format!("{}/C20-{}-{}-{}-{}.json", replay_dir, build_config(), seed, rec.run, id);
             let write_doc = |plan: &AnyPlan, f: &Failure, steps: u32| -> bool {
                 let doc = json!({
                     "property": PROPERTY,
-                    "build_configuration": BUILD_CONFIG,
+                    "build_configuration": build_config(),
                     "lane": plan.lane(),
                     "seed": seed,
                     "run": rec.run,
@@ -807,7 +815,7 @@ pub fn cmd_batch(args: &[String]) -> i32 {
                 // from 0 up to the failing one, in index order, on one thread.
                 let doc = json!({
                     "property": PROPERTY,
-                    "build_configuration": BUILD_CONFIG,
+                    "build_configuration": build_config(),
                     "lane": "history",
                     "seed": seed,
                     // the batch ran on several threads: which run trips over state left behind by
@@ -828,7 +836,7 @@ pub fn cmd_batch(args: &[String]) -> i32 {
                     // whole batch on the same number of threads, several times, and is statistical.
                     let doc = json!({
                         "property": PROPERTY,
-                        "build_configuration": BUILD_CONFIG,
+                        "build_configuration": build_config(),
                         "lane": "concurrent",
                         "seed": seed,
                         "total_runs": total,
@@ -850,7 +858,7 @@ pub fn cmd_batch(args: &[String]) -> i32 {
                     violations += 1;
                     violation_lines.push(format!(
                         "VIOLATION property={} replay={}  [{} on {} (run {}, {} lane, {} build): {}]",
-                        PROPERTY, path, id, ty, rec.run, rec.plan.lane(), BUILD_CONFIG, observed
+                        PROPERTY, path, id, ty, rec.run, rec.plan.lane(), build_config(), observed
                     ));
                 }
                 None => {
@@ -916,7 +924,7 @@ pub fn cmd_batch(args: &[String]) -> i32 {
         "tier": tier,
         "seed": seed,
         "level": "fault_enumeration",
-        "build_configuration": BUILD_CONFIG,
+        "build_configuration": build_config(),
         "wall_s": wall,
         "violations": violations,
         "coverage": {
